@@ -559,13 +559,20 @@ func checkC20Cycle(c C20Cycle, o *vcore.Obs) error {
 					return fmt.Errorf("%s: uploaded DBI has %d entries, model %d", step, len(kvs), len(shadow))
 				}
 				// receivers without the hack refuse it and stay unchanged
-				if err := refusedBy(loaded, config.LMDB{SchemaTracksChanges: true}); err != nil {
-					return fmt.Errorf("%s: native-mode receiver: %v", step, err)
+				for _, existing := range []bool{false, true} {
+					if err := refusedBy(loaded, config.LMDB{SchemaTracksChanges: true}, existing); err != nil {
+						return fmt.Errorf("%s: native-mode receiver (DBI of that name exists: %v): %v", step, existing, err)
+					}
 				}
 				if live > 0 || len(kvs) > 0 {
-					if err := refusedBy(loaded, config.LMDB{SchemaTracksChanges: false, DupSortHack: false}); err != nil {
+					if err := refusedBy(loaded, config.LMDB{SchemaTracksChanges: false, DupSortHack: false}, false); err != nil {
 						return fmt.Errorf("%s: shadow receiver without dupsort_hack: %v", step, err)
 					}
+				}
+				// a fresh receiver WITH the hack creates the DBI as the duplicate-keys DBI it is and ends up
+				// with exactly the sender's pairs
+				if err := acceptedByFresh(loaded, mainPairs, flags); err != nil {
+					return fmt.Errorf("%s: fresh receiver with dupsort_hack: %v", step, err)
 				}
 			}
 		case "remote":
@@ -664,21 +671,36 @@ func checkC20Cycle(c C20Cycle, o *vcore.Obs) error {
 
 // refusedBy merges the loaded snapshot on a fresh instance with the given LMDB
 // options: it must fail and leave that LMDB exactly as it was.
-func refusedBy(loaded *snapshot.Snapshot, lc config.LMDB) error {
+func refusedBy(loaded *snapshot.Snapshot, lc config.LMDB, existing bool) error {
 	env := lm.New(16<<20, 8)
 	defer env.Close()
-	// some pre-existing content so that "unchanged" means something
+	// some pre-existing content so that "unchanged" means something; optionally the receiver already has
+	// an (ordinary) DBI of the same name - the stated transform must be refused all the same
 	_ = env.Update(func(txn *lmdb.Txn) error {
-		dbi, err := txn.OpenDBI("other", lmdb.Create)
-		if err != nil {
-			return err
+		names := []string{"other"}
+		if existing {
+			names = append(names, "dup")
 		}
-		val := []byte("plain")
-		if lc.SchemaTracksChanges {
-			val = model.BuildHeader(5, uint64(txn.ID()), 0, nil, []byte("v"))
+		for _, n := range names {
+			dbi, err := txn.OpenDBI(n, lmdb.Create)
+			if err != nil {
+				return err
+			}
+			val := []byte("plain")
+			if lc.SchemaTracksChanges {
+				val = model.BuildHeader(5, uint64(txn.ID()), 0, nil, []byte("v"))
+			}
+			if err := txn.Put(dbi, []byte("k"), val, 0); err != nil {
+				return err
+			}
 		}
-		return txn.Put(dbi, []byte("k"), val, 0)
+		return nil
 	})
+	if existing && !lc.SchemaTracksChanges {
+		// steady state: the existing DBI has its shadow
+		s0, _ := newShadowSyncer(env.Env, "r", lc)
+		_ = env.Update(func(txn *lmdb.Txn) error { return s0.VerifMainToShadow(context.Background(), txn, 1000) })
+	}
 	s, _ := newShadowSyncer(env.Env, "r", lc)
 	before, _ := lm.DumpEnv(env.Env)
 	// re-decode a private copy: iteration state is per DBI object
@@ -705,6 +727,48 @@ func refusedBy(loaded *snapshot.Snapshot, lc config.LMDB) error {
 	}
 	if before.LastTxnID != after.LastTxnID {
 		return fmt.Errorf("refused the snapshot but committed a transaction")
+	}
+	return nil
+}
+
+func acceptedByFresh(loaded *snapshot.Snapshot, want map[string][2][]byte, flags uint) error {
+	env := lm.New(32<<20, 8)
+	defer env.Close()
+	s, _ := newShadowSyncer(env.Env, "r", config.LMDB{SchemaTracksChanges: false, DupSortHack: true})
+	var buf bytes.Buffer
+	if _, err := loaded.WriteTo(&buf); err != nil {
+		return err
+	}
+	var cp snapshot.Snapshot
+	if err := cp.Unmarshal(buf.Bytes()); err != nil {
+		return err
+	}
+	upd := snapshot.Update{Snapshot: &cp, NameInfo: snapshot.NameInfo{Kind: snapshot.KindSnapshot, InstanceID: "a", Timestamp: time.Unix(0, 3)}}
+	if _, _, err := s.LoadOnce(context.Background(), env.Env, "a", upd, headerTxn(0)); err != nil {
+		return fmt.Errorf("LoadOnce: %v", err)
+	}
+	dump, err := lm.DumpEnv(env.Env)
+	if err != nil {
+		return err
+	}
+	d := dump.DBI("dup")
+	if d == nil {
+		return fmt.Errorf("the DBI was not created")
+	}
+	if d.Flags != flags {
+		return fmt.Errorf("the DBI was created with flags %#x, the sender's DBI has %#x", d.Flags, flags)
+	}
+	got := map[string]bool{}
+	for _, e := range d.Entries {
+		got[pairKey(e.Key, e.Val)] = true
+	}
+	for p := range want {
+		if !got[p] {
+			return fmt.Errorf("pair %q of the sender is missing (receiver has %d entries)", p, len(got))
+		}
+	}
+	if len(got) != len(want) {
+		return fmt.Errorf("receiver has %d pairs, sender %d", len(got), len(want))
 	}
 	return nil
 }
